@@ -249,13 +249,28 @@ def analyse_unit(unit, producers, clearers, null_safe=(), status_writes=(), repo
     clr = {k: set(v) for k, v in clearers.items()}
     # transitive: a function that calls a clearer of F clears F (one level is what the repo uses)
     res = {}
+    # static helpers that never reach a producer (recovery / reporting sequences factored out of the allocation sites) are
+    # analysed in place: the obligations of a call site may be discharged inside such a helper
+    from . import norm
+    direct = {name: {cir.callee(c) for c in cir.calls(fn)} for name, fn in unit.funcs.items()}
+    reach = {name for name, cs in direct.items() if cs & producers}
+    changed = True
+    while changed:
+        changed = False
+        for name, cs in direct.items():
+            if name not in reach and cs & reach:
+                reach.add(name)
+                changed = True
+    inl = norm.Inliner(unit, depth=3, pred=lambda h: h.get("storageClass") == "static" and h.get("n") not in reach
+                       and h.get("n") not in producers and h.get("file") in (None, unit.tu))
     for name, fn in unit.funcs.items():
         if name in producers and fn.get("storageClass") != "static":
             pass
-        called = {cir.callee(c) for c in cir.calls(fn)}
+        called = direct[name]
         if not (called & producers):
             continue
         rule = NullRule(producers, clr, null_safe, report_calls or REPORT_CALLS, status_writes)
+        fn = inl.expand(fn)
         ex = paths.Explorer(rule, unit, fn)
         ctx = ex.ctx
         ctx.sites = {}
